@@ -44,6 +44,13 @@ theorem step_K {B : Nat} {s : St} {done seen fetched : List Nat} (h : Inv s done
       · exact release_K hK h.live_nodup k
       · exact hK
     · exact hK
+  | drop k how =>
+    simp only [step]
+    split
+    · split
+      · exact release_K hK h.live_nodup k
+      · exact hK
+    · exact hK
   | redirect k k' =>
     have hk' : k' ∉ seen := hf k' (by simp [subOf])
     simp only [step]
